@@ -183,6 +183,19 @@ CHECKS['C06'] = dict(
     technique='machine-checked proof (Coq) over instruction lists regenerated from the source + line-level injection sweep with a direct oracle',
 )
 
+CHECKS['C16'] = dict(
+    text=('Proof over the regenerated run skeletons: the translator labels a statement as a result send only if it sends '
+          '`((ok, value), self._user_state)`, so every report carries the state; finite-domain theorems show that every reporting ending (return, '
+          'own exception, graceful terminate inside the running target) synchronises, and that a kill at any statement boundary lets a state through '
+          'exactly when the complete result message had been written. Real workers of the six classes are run with random init values, 0-10 '
+          'assignments and the three endings: the parent polls user_state while the worker is alive, checks it after death, the rejected '
+          'parent-side assignment, restart() and a second incarnation.'),
+    design='5/C16',
+    note=('Partial: remote kinds are covered by the harness only (their child loop is not among the translated skeletons); thread kinds share memory '
+          '(unspecified while alive). ' + COMMON_NOTE),
+    technique='machine-checked finite-domain proof (Coq) over skeletons regenerated from the source + differential execution on the six classes',
+)
+
 NOT_YET = {}
 
 
